@@ -149,9 +149,12 @@ func checkC01(r *mon.Run) {
 			c01Case(r, rng, s, i)
 		}
 		c01IdlePhase(r, rng, s)
+		if si%4 == 0 {
+			c01ConcurrentPhase(r, rng, s)
+		}
 	})
 	r.Require(int64(nStars*perStar), 60, "valid_accepted", "perturbed_rejected_scmp", "expired_rejected", "xover_second_hop_rejected", "epic_wrapped", "valid_then_tampered_pair",
-		"idle_accepted_before_expiry", "idle_rejected_after_expiry", "refused_presented_again")
+		"idle_accepted_before_expiry", "idle_rejected_after_expiry", "refused_presented_again", "concurrent_tampered_judged", "concurrent_valid_forwarded")
 }
 
 func c01Case(r *mon.Run, rng *rand.Rand, s *rfix.Star, idx int) {
@@ -246,7 +249,20 @@ func c01Case(r *mon.Run, rng *rand.Rand, s *rfix.Star, idx int) {
 			offs = append(offs, -1200*time.Millisecond, -700*time.Millisecond, -400*time.Millisecond)
 		}
 		off := offs[rng.IntN(len(offs))]
-		p = &pert{name: "expired" + off.String(), expired: true, expOff: off, target: tgt}
+		pn := "expired" + off.String()
+		if rng.IntN(4) == 0 {
+			// very old segments: ages around powers of two seconds (arithmetic
+			// boundaries of any fixed-width time computation), up to the 2^32 s
+			// range of the timestamp field
+			k := 16 + rng.IntN(16)
+			age := (int64(1) << k) + int64(rng.IntN(7200)) - 3600
+			if age > now.Unix()-100000 {
+				age = now.Unix() - 100000 - int64(rng.IntN(3600))
+			}
+			off = -time.Duration(age) * time.Second
+			pn = fmt.Sprintf("expired-age~2^%d s", k)
+		}
+		p = &pert{name: pn, expired: true, expOff: off, target: tgt}
 		// expiry = ts + (exp+1)*337.5 s == now + off  => ts = now + off - life
 		seg := sc.Spec.Segs[segIdx].Seg
 		hop.Exp = uint8(rng.IntN(256))
@@ -528,4 +544,89 @@ func c01IdlePhase(r *mon.Run, rng *rand.Rand, s *rfix.Star) {
 			r.Event("idle_rejected_after_expiry")
 		}
 	}
+}
+
+// c01ConcurrentPhase: several processors of ONE data plane work at the same
+// time, as the router's processor goroutines do: some on authentic packets,
+// one on packets in which a single MAC-protected value of the same hop field
+// was altered. Whatever the processors share, a tampered packet must not get
+// through.
+func c01ConcurrentPhase(r *mon.Run, rng *rand.Rand, s *rfix.Star) {
+	var sc *rfix.Scn
+	var valid []byte
+	for try := 0; try < 50 && valid == nil; try++ {
+		c := s.GenScenario(rng, rfix.Shape(rng.IntN(int(rfix.NumShapes))), time.Now().Unix())
+		b, err := c.Packet(rng, nil)
+		if err != nil {
+			continue
+		}
+		if res := s.Process(append([]byte(nil), b...), c.In); res.Forwarded() {
+			sc, valid = c, b
+		}
+	}
+	if valid == nil {
+		r.Inconclusive("no-forwardable-scenario")
+		return
+	}
+	h, err := rfix.ParseHdr(valid)
+	if err != nil {
+		return
+	}
+	tgt := sc.LocalHops[0]
+	fromOutside := sc.Arr == rfix.ArrExternal
+	const nValid = 5
+	n := r.Pick(4000, 40000)
+	var wg sync.WaitGroup
+	stop := make(chan struct{})
+	for w := 0; w < nValid; w++ {
+		f := s.Fork()
+		wg.Add(1)
+		go func() {
+			defer wg.Done()
+			buf := make([]byte, len(valid))
+			ok := 0
+			for {
+				select {
+				case <-stop:
+					r.EventN("concurrent_valid_forwarded", int64(ok))
+					return
+				default:
+				}
+				copy(buf, valid)
+				if res := f.Process(buf, sc.In); res.Forwarded() {
+					ok++
+				}
+			}
+		}()
+	}
+	f := s.Fork()
+	trng := rand.New(rand.NewPCG(rng.Uint64(), rng.Uint64()))
+	for i := 0; i < n; i++ {
+		t := append([]byte(nil), valid...)
+		switch trng.IntN(4) {
+		case 0:
+			t[h.HopOff[tgt]+1] ^= 1 << trng.IntN(8) // ExpTime
+		case 1:
+			t[h.HopOff[tgt]+2+trng.IntN(4)] ^= 1 << trng.IntN(8) // ConsIngress / ConsEgress
+		case 2:
+			t[h.HopOff[tgt]+6+trng.IntN(6)] ^= 1 << trng.IntN(8) // MAC
+		case 3:
+			si, _ := sc.Spec.Locate(tgt)
+			t[h.InfoOff[si]+4+trng.IntN(4)] ^= 1 << trng.IntN(8) // timestamp
+		}
+		in0 := append([]byte(nil), t...)
+		t0 := time.Now()
+		res := f.Process(t, sc.In)
+		t1 := time.Now()
+		r.Eval(1)
+		r.Event("concurrent_tampered_judged")
+		if res.Panic != "" {
+			r.Violation("C01:panic:"+mon.PanicSite(res.Stack), "panic while processing", witness(s, sc, "concurrent", in0, &res))
+			break
+		}
+		universalC01(r, s, sc, "tampered-while-other-processors-verify-the-authentic-hop", in0, &res, fromOutside, t0, t1)
+	}
+	close(stop)
+	wg.Wait()
+	r.Class("concurrent/6-processors-one-data-plane")
 }
